@@ -220,6 +220,9 @@ func sendVersionMutations(ch chan []byte, uuid, dataID dvid.UUID) (numMutations 
 
 // sends JSON mutation records from the UUIDs (in descending DAG order) down channel.
 func sendMutations(ch chan []byte, dataID dvid.UUID, sequence []dvid.UUID) error {
+	// The reader ranges over the channel: it must be closed on the error returns as well,
+	// or the request that asked for the mutations is never answered.
+	defer close(ch)
 	if tc.Mutations.Jsonstore == "" {
 		return fmt.Errorf("no jsonstore configured in [mutations] section of TOML config")
 	}
@@ -232,7 +235,6 @@ func sendMutations(ch chan []byte, dataID dvid.UUID, sequence []dvid.UUID) error
 		}
 		numMutations += num
 	}
-	close(ch)
 
 	dvid.Infof("Read %d JSON mutations for data %s\n", numMutations, dataID)
 	return nil
